@@ -29,7 +29,7 @@ from fractions import Fraction
 from vf import gen, refsem
 from vf.c11_lib import (
     NotInFragment, box_for, expand_nf, flatten_nf, fold_nf, in_collector_fragment, is_closed,
-    is_polynomial, is_rational, nc_eval, poly4, rf_depth2, rf_depth3, rf_value, xeval,
+    is_polynomial, is_rational, nc_eval, poly4, rf_chain4, rf_depth2, rf_depth3, rf_value, xeval,
 )
 from vf.envs import SPECIAL_NAMES, base_env
 from vf.exact import NCPoly
@@ -57,9 +57,11 @@ NOT_EVALUABLE = ("Substitution", "Derivative", "Slice", "Wildcard", "DotWildcard
 EVAL_CTORS = gen.ctors(exclude_tags=NOT_EVALUABLE)
 SYMBOLIC_PARENTS = gen.ctors(tags=("Substitution", "Derivative", "Slice"))
 SP_CTORS = gen.ctors(names=("Sum2", "Sum3", "Product2", "Product3"))
-# grandparents of the two-level chains around the kernels (thorough)
-REDUCED_GP = gen.ctors(names=("Call1", "CallKw11", "Subscript", "Sum2", "Product3", "Quotient",
-                              "FloorDiv", "Power", "LeftShift", "BitwiseNot", "BitwiseXor2",
+# grandparents of the two-level chains around the kernels (quick / thorough)
+QUICK_GP = gen.ctors(names=("Sum2", "Product2"))
+REDUCED_GP = gen.ctors(names=("Call1", "CallKw11", "Subscript", "Sum2", "Product2",
+                              "Product3", "Quotient", "FloorDiv", "Power", "LeftShift",
+                              "BitwiseNot", "BitwiseXor2",
                               "Cmp<", "LogicalNot", "LogicalOr2", "If", "Min2", "Max3", "CSE",
                               "CSEp", "tuple2", "list2", "array1", "Derivative", "Slice2"))
 
@@ -436,12 +438,17 @@ class C11(Check):
             "Product, Quotient, Power with literal exponent in -2..3) over x, y, 0, 1, 2, -1 "
             "[depth 2 complete incl. ternary; depth 3: every binary parent over the child pool "
             "squared, every literal power of a pool element, ternary parents over a small pool; "
-            "quick uses a reduced child pool] plus deeper polynomial inputs (products / powers / "
+            "quick uses a reduced child pool] plus depth-4 chains P(a, M(.., I(c, d))) with P, I "
+            "sums/products and M a binary or single-operand sum/product, quotient or literal "
+            "power (operands that only become a sum/product after being rewritten; nested "
+            "sums/products beneath a non-sum/product operand) plus deeper polynomial inputs "
+            "(products / powers / "
             "differences of sums), each x 8 rewriter configurations (flatten, ConstantFolding, "
             "CommutativeConstantFolding, TermCollector with parameters {} and {y}, expand, "
             "distribute with parameters {y}, distribute non-commutative); fa: flatten and both "
             "folders on every evaluable constructor shape with every leaf combination, every "
-            "(parent, position[, parent, position]) around four rewritable kernels, every child "
+            "(parent, position) and (grandparent, position, parent, position) [grandparents: quick "
+            "Sum2/Product2, thorough 25 shapes] around four rewritable kernels, every child "
             "type under a sum/product, sums/products with typed neutral elements, composite "
             "closed operands; nc: flatten and the plain folder on sums/products of non-commuting "
             "atoms. The rf families run under each listed PYTHONHASHSEED (TermCollector iterates "
@@ -481,6 +488,7 @@ class C11(Check):
         fams = [
             ("rf-depth2", lambda: (("rf", s) for s in rf_depth2())),
             ("rf-depth3", lambda: (("rf", s) for s in rf_depth3(tier))),
+            ("rf-chain4", lambda: (("rf", s) for s in rf_chain4(tier))),
             ("rf-poly4", lambda: (("rf", s) for s in poly4(tier))),
             ("fa-depth2", lambda: (("fa", s) for s in gen.depth2(EVAL_CTORS, lv))),
             ("fa-kernels", lambda: (("fa", s) for s in
@@ -491,9 +499,11 @@ class C11(Check):
             ("fa-closed", lambda: (("fa", s) for s in fa_closed_children())),
             ("nc", lambda: (("nc", s) for s in nc_trees(tier))),
         ]
-        if tier != "quick":
-            fams.append(("fa-kernels2", lambda: (("fa", s) for s in fa_around_kernels2(
-                REDUCED_GP, EVAL_CTORS + SYMBOLIC_PARENTS))))
+        # kernels beneath any node type that is itself an operand of a sum / product (quick), or an
+        # operand of any of 24 grandparent shapes (thorough)
+        gps = QUICK_GP if tier == "quick" else REDUCED_GP
+        fams.append(("fa-kernels2", lambda: (("fa", s) for s in fa_around_kernels2(
+            gps, EVAL_CTORS + SYMBOLIC_PARENTS))))
         # The hash seed is a configuration dimension for the code that iterates over sets
         # (TermCollector and everything built on it).  The fa / nc families only run flatten and
         # the folders, which never iterate over a set (and which the rf families exercise under
